@@ -74,6 +74,17 @@ def lin(t):
             if is_c(y):
                 a, ca = lin(x)
                 return {k: v * y[1] for k, v in a.items() if v * y[1] != 0}, ca * y[1]
+            # (a + b + c) * S  with S a symbolic atom (size_of::<T>()): distribute
+            for lhs, s_ in ((x, y), (y, x)):
+                if s_[0] == 'sym' and lhs[0] == 'app' and lhs[1] in ('add', 'sub'):
+                    a, ca = lin(lhs)
+                    r = {}
+                    for k, v in a.items():
+                        kk = ('app', 'mul', k, s_)
+                        r[kk] = r.get(kk, 0) + v
+                    if ca:
+                        r[s_] = r.get(s_, 0) + ca
+                    return {k: v for k, v in r.items() if v != 0}, 0
     return {t: 1}, 0
 
 
